@@ -154,9 +154,9 @@ def is_numeric(t: Term) -> bool:
     h = t[0]
     if h in ('num', 'lin', 'mul', 'min', 'max', 'floordiv', 'mod'):
         return True
-    if h == 'self':
+    if h in ('self', 'selfv'):
         return t[1] in NUMERIC_SCALARS
-    if h == 'sub' and t[1][0] == 'self':
+    if h == 'sub' and t[1][0] in ('self', 'selfv'):
         return t[1][1] in NUMERIC_LISTS
     if h == 'call':
         return t[1] in NUMERIC_CALLS
@@ -480,12 +480,42 @@ def spec(src: str, binds: dict | None = None, boolean: bool = False, **kw) -> Te
 
 
 def subst(t, mapping: dict):
-    """replace sub-terms (exact match) by others"""
+    """replace sub-terms (exact match) by others and restore canonical order"""
+    return resort(_subst(t, mapping))
+
+
+def _subst(t, mapping: dict):
     if t in mapping:
         return mapping[t]
     if not isinstance(t, tuple):
         return t
-    return tuple(subst(x, mapping) for x in t)
+    return tuple(_subst(x, mapping) for x in t)
+
+
+def resort(t):
+    """re-establish the canonical order of commutative nodes after a substitution"""
+    if not isinstance(t, tuple) or not t or not isinstance(t[0], str):
+        if isinstance(t, tuple):
+            return tuple(resort(x) for x in t)
+        return t
+    h = t[0]
+    if h in ('eq', 'ne', 'is', 'isnot') and len(t) == 2 and isinstance(t[1], tuple) and len(t[1]) == 2:
+        a, b = resort(t[1][0]), resort(t[1][1])
+        return (h, _pair(a, b))
+    if h in ('and', 'or') and len(t) == 2:
+        return mk_bool(h, [resort(x) for x in t[1]])
+    if h in ('min', 'max') and len(t) == 2:
+        return minmax(h, tuple(resort(x) for x in t[1]))
+    if h == 'lin' and len(t) == 3:
+        out = ('num', t[2])
+        for a, c in t[1]:
+            out = add(out, scale(resort(a), c))
+        return out
+    if h == 'mul' and len(t) == 2:
+        return ('mul', tuple(sorted((resort(x) for x in t[1]), key=key)))
+    if h in ('set', 'bitor', 'bitand') and len(t) == 2:
+        return (h, tuple(sorted((resort(x) for x in t[1]), key=key)))
+    return tuple(resort(x) if isinstance(x, tuple) else x for x in t)
 
 
 def subterms(t):
